@@ -17,7 +17,7 @@ import (
 // original string, increase, do not overlap and cover every non-space rune.
 
 func TestVerif(t *testing.T) {
-	vrep.Main(t, "github.com/google/licenseclassifier/stringclassifier/searchset/tokenizer", map[string]vrep.Harness{"c17_tokens": c17Tokens, "c17_longwords": c17LongWords, "c17_runes": c17Runes})
+	vrep.Main(t, "github.com/google/licenseclassifier/stringclassifier/searchset/tokenizer", map[string]vrep.Harness{"c17_tokens": c17Tokens, "c17_longwords": c17LongWords, "c17_runes": c17Runes, "c17_longtext": c17LongText})
 }
 
 func c17Check(s string) string {
@@ -197,6 +197,58 @@ func c17Runes(c *vrep.Ctx) {
 		if m := r.Note["msg"].(string); m != "" {
 			id := r.Note["id"].(string)
 			c.Violate("c17_runes:"+strings.ReplaceAll(id, " ", "_"), id+": "+m, r, m)
+		}
+	})
+}
+
+
+// c17LongText: running text with punctuation throughout, of sizes a little above the powers of two
+// from 1 KiB to 128 KiB (whatever a tokenizer may do differently for long inputs: pieces, buffers,
+// narrow offsets), shifted by 0..15 leading bytes; the oracle of c17_tokens.
+func c17LongText(c *vrep.Ctx) {
+	sizes := []int{1100, 2200, 4300, 8300, 16500, 33000, 66000, 132000}
+	if c.Thorough() {
+		sizes = append(sizes, 263000, 1050000)
+	}
+	styles := []struct {
+		name string
+		seps []string
+	}{
+		{"commas and full stops", []string{" ", ", ", " ", ". ", " ", "; ", "\n"}},
+		{"multi-byte punctuation", []string{" ", "—", " ", "。", " «", "» ", "\n\n"}},
+		{"glued punctuation", []string{",", " ", "(", ") ", ":", " ", "\t"}},
+	}
+	c.R.Rule = fmt.Sprintf("running text (distinct words of 2..9 letters, some non-ASCII) with punctuation between the words in %d styles, total size %v bytes, behind 0..15 leading filler bytes; oracle as c17_tokens (every non-space character covered once, offsets increasing, text at the offset equals the token); non-trivial = all cases", len(styles), sizes)
+	c.Bound("max_bytes", sizes[len(sizes)-1])
+	body := func(r *vx.Run) {
+		n := sizes[r.Choose(len(sizes), "size")]
+		st := styles[r.Choose(len(styles), "style")]
+		shift := r.Choose(16, "shift")
+		if r.Scout() {
+			return
+		}
+		var sb strings.Builder
+		sb.WriteString(strings.Repeat("x", shift))
+		if shift > 0 {
+			sb.WriteByte(' ')
+		}
+		for i := 0; sb.Len() < n; i++ {
+			w := "w" + string(rune('a'+i%26)) + strings.Repeat(string(rune('a'+(i/26)%26)), i%8)
+			if i%17 == 3 {
+				w += "é世"
+			}
+			sb.WriteString(w)
+			sb.WriteString(st.seps[i%len(st.seps)])
+		}
+		r.Note = map[string]interface{}{"id": fmt.Sprintf("%d bytes, %s, shift %d", n, st.name, shift), "msg": c17Check(sb.String())}
+	}
+	e := c.Explorer(0)
+	e.SplitDepth = 2
+	c.Run(e, body, func(r *vx.Run) {
+		c.R.Nontrivial++
+		if m := r.Note["msg"].(string); m != "" {
+			id := r.Note["id"].(string)
+			c.Violate("c17_longtext:"+strings.ReplaceAll(id, " ", "_"), id+": "+m, r, m)
 		}
 	})
 }
